@@ -1,5 +1,5 @@
 (* C09 — tournament balancing never loses, duplicates or miscounts a player. Refusals. *)
-From PF Require Import Base ModelReg ProofsRegBasic.
+From PF Require Import Base ModelReg ModelSys ProofsRegBasic.
 
 Theorem C09_sync_unknown_table_refused :
   forall st id out, find_table id (r_tables (rs_reg st)) = None ->
@@ -72,3 +72,37 @@ Example C09_example :
   let s := sys_run (sys_init 4 2) [SRegister [] [1; 2; 3; 4; 5; 6; 7]; SStatus [] 1; SSync 1 2; SSync 2 1; SRelease [] 5; SSync 1 0] in
   (length (s_alive s) = 4)%nat /\ r_pc (rs_reg (s_st s)) = 4.
 Proof. vm_compute. split; reflexivity. Qed.
+
+(* the same for the machine in which the table chooses freely which of its members are eliminated and the
+   caller chooses freely which of the players in transit are handed back, and in which order (GSync id elim,
+   GRelease choices batch).  This is the machine the extracted runner steps, operation by operation, on the
+   histories the Go harness plays against the real regulator; the tables, the players in transit and the number
+   of living players it computes are compared with the harness's own after every operation, so the environment
+   of this theorem is the environment of the correspondence run. *)
+From PF Require Import ProofsSys.
+Theorem C09_every_player_in_exactly_one_place_any_choice :
+  forall mx mn ops, 0 < mx ->
+    let s := sys_grun (sys_init mx mn) ops in
+    let r := rs_reg (s_st s) in
+    Permutation (r_queue r ++ members (s_tabs s) ++ s_transit s) (s_alive s) /\
+    NoDup (s_alive s) /\
+    r_pc r = zn (length (s_alive s)) /\
+    r_tc r = zn (length (s_tabs s)) /\
+    Forall2 (fun t m => t_id t = fst m /\ t_pc t = zn (length (snd m))) (r_tables r) (s_tabs s).
+Proof.
+  intros mx mn ops Hmx s r. destruct (SysInv_grun mx mn ops Hmx) as [[A B C D E N F] _]. fold s in A, B, C, D, E, N, F. fold r in A, B, C, D, E, F.
+  split; [exact E|]. split; [exact N|]. split; [exact F|]. split; [|exact A].
+  rewrite B. f_equal. apply (Tcons_length _ _ A).
+Qed.
+Print Assumptions C09_every_player_in_exactly_one_place_any_choice.
+
+Theorem C09_step_preserves_any_choice : forall s o, SysInv s -> SysInv (sys_gstep s o).
+Proof. exact SysInv_gstep. Qed.
+Print Assumptions C09_step_preserves_any_choice.
+
+(* non-vacuity: the last two members of a table are eliminated, two players in transit are handed back in
+   reverse order *)
+Example C09_example_any_choice :
+  let s := sys_grun (sys_init 4 2) [GRegister [] [1; 2; 3; 4; 5; 6; 7]; GStatus [] 1; GSync 1 [3; 2]; GSync 2 [7]; GRelease [] [6; 4]; GSync 1 []] in
+  (length (s_alive s) = 4)%nat /\ r_pc (rs_reg (s_st s)) = 4 /\ s_transit s = [5].
+Proof. vm_compute. repeat split; reflexivity. Qed.
